@@ -1,4 +1,165 @@
+//! vf-server: C14 — service keys confine callers to their database; reads never write.
+mod check;
+mod extract;
+mod matrix;
+mod world;
+
+use check::{Case, run_case};
+use proptest::prelude::*;
+use vf_core::Runner;
+use world::{KeySel, Op};
+
+fn keysel() -> impl Strategy<Value = KeySel> {
+    prop_oneof![
+        3 => Just(KeySel::Fresh),
+        2 => Just(KeySel::Generated),
+        2 => any::<u16>().prop_map(KeySel::Retired),
+    ]
+}
+
+fn op_strategy() -> impl Strategy<Value = Op> {
+    let r4 = 0u8..4;
+    let r5 = 0u8..5;
+    let coll = 0u8..2;
+    prop_oneof![
+        5 => (r4.clone(), keysel()).prop_map(|(role, sel)| Op::SetKey { role, sel }),
+        3 => r4.clone().prop_map(|role| Op::RemoveKey { role }),
+        3 => r4.clone().prop_map(|role| Op::Close { role }),
+        3 => (r4.clone(), any::<bool>()).prop_map(|(role, connect)| Op::Open { role, connect }),
+        1 => Just(Op::Restart),
+        3 => (r4.clone(), prop::bool::weighted(0.8)).prop_map(|(role, on)| Op::DbReadOnly { role, on }),
+        2 => (r5.clone(), coll.clone(), prop::bool::weighted(0.8)).prop_map(|(role, coll, on)| Op::CollReadOnly { role, coll, on }),
+        1 => (r5.clone(), coll.clone()).prop_map(|(role, coll)| Op::AddDoc { role, coll }),
+        1 => (r5.clone(), coll.clone()).prop_map(|(role, coll)| Op::UpdateDoc { role, coll }),
+        1 => (r5.clone(), coll.clone()).prop_map(|(role, coll)| Op::RemoveDoc { role, coll }),
+        1 => r5.clone().prop_map(|role| Op::SaveExt { role }),
+        1 => r5.clone().prop_map(|role| Op::Flush { role }),
+    ]
+}
+
+fn case_strategy() -> impl Strategy<Value = Case> {
+    prop::collection::vec(op_strategy(), 1..14).prop_map(|ops| Case { ops, body_sample: None })
+}
+
+fn sampled_strategy() -> impl Strategy<Value = Case> {
+    (prop::collection::vec(op_strategy(), 1..24), prop::collection::vec(any::<u16>(), 6))
+        .prop_map(|(ops, picks)| Case { ops, body_sample: Some(picks) })
+}
+
+/// Fixed histories: one per lifecycle state the property names.
+fn canonical() -> Vec<Case> {
+    use Op::*;
+    let (a, b, c, d) = (0u8, 1u8, 2u8, 3u8);
+    vec![
+        // the plain fixture (A's key rotated once, D closed)
+        Case { ops: vec![], body_sample: None },
+        // read-only database A, read-only collection in B and in the primary
+        Case { ops: vec![DbReadOnly { role: a, on: true }, CollReadOnly { role: b, coll: 0, on: true }, CollReadOnly { role: 4, coll: 1, on: true }], body_sample: None },
+        // clean restart, then more writes
+        Case { ops: vec![AddDoc { role: a, coll: 0 }, Restart, AddDoc { role: b, coll: 0 }, UpdateDoc { role: a, coll: 0 }], body_sample: None },
+        // close / reopen both tenants (open and connect); D reopened, its key removed (closed again without binding)
+        Case { ops: vec![Close { role: a }, Open { role: a, connect: false }, Close { role: b }, Open { role: b, connect: true }, Open { role: d, connect: false }, RemoveKey { role: d }], body_sample: None },
+        // key life cycle: remove, generated key, rotations, a retired key reused for another database, key on C removed again
+        Case {
+            ops: vec![
+                RemoveKey { role: a },
+                SetKey { role: a, sel: KeySel::Generated },
+                SetKey { role: b, sel: KeySel::Fresh },
+                SetKey { role: b, sel: KeySel::Retired(0) },
+                SetKey { role: c, sel: KeySel::Fresh },
+                RemoveKey { role: c },
+                Open { role: d, connect: true },
+                SetKey { role: d, sel: KeySel::Retired(65535) },
+            ],
+            body_sample: None,
+        },
+        // everything, with restarts in between
+        Case {
+            ops: vec![
+                SetKey { role: c, sel: KeySel::Fresh },
+                Restart,
+                Close { role: a },
+                RemoveKey { role: b },
+                Restart,
+                Open { role: a, connect: true },
+                SetKey { role: b, sel: KeySel::Generated },
+                DbReadOnly { role: b, on: true },
+                Open { role: d, connect: false },
+                SetKey { role: d, sel: KeySel::Fresh },
+                RemoveDoc { role: b, coll: 0 },
+                Flush { role: a },
+            ],
+            body_sample: None,
+        },
+    ]
+}
+
 fn main() {
-    eprintln!("vf-server: not built yet");
-    std::process::exit(2);
+    let prop = std::env::args().nth(1).unwrap_or_default();
+    if prop != "C14" {
+        eprintln!("usage: vf-server C14 <quick|thorough|replay FILE> (got {prop:?})");
+        std::process::exit(2);
+    }
+    let mut r = Runner::from_env("C14", "exploration");
+    r.set_case_timeout_ms(600_000);
+    let tables = match extract::extract() {
+        Ok(t) => t,
+        Err(e) => {
+            r.inconclusive(format!("method table extraction failed: {e}"));
+            r.finish();
+        }
+    };
+    match check::validate_tables(&tables) {
+        Ok(stats) => {
+            r.extra(
+                "method_tables",
+                serde_json::json!({
+                    "source": tables.source,
+                    "root": tables.root.iter().map(|(n, e)| format!("{n}:{e:?}")).collect::<Vec<_>>(),
+                    "db": tables.db.iter().map(|(n, e)| format!("{n}:{e:?}")).collect::<Vec<_>>(),
+                    "other_method_like_literals": tables.other_literals,
+                    "probe": stats,
+                }),
+            );
+        }
+        Err(e) => {
+            r.inconclusive(format!("extracted method tables do not match the live router: {e}"));
+            r.finish();
+        }
+    }
+    r.assume("the Read/Mutating class of a method is the one written in RootMethod::parse / DbMethod::parse of the source tree the driver was built against (names cross-validated by probing the live router; the class itself is not observable from outside)");
+    r.assume("every backend write of the server goes through the ObjectStore handed to AppState::connect (the logging CtlStore)");
+    r.assume("reads are judged on a warm database: every collection was opened once by an admin before the matrix (the cold open of a collection flushes, as collection::open documents); no unclean shutdown is generated");
+    r.assume("timing equalisation, TLS / proxy layers and anda_db_shard_proxy are not covered");
+    let t = &tables;
+    r.sub_enum(
+        "canonical_histories",
+        "6 fixed admin histories (plain fixture; read-only database and collections; restart; close/reopen; key life cycle with generated and reused keys; all combined), each followed by the COMPLETE request matrix in six name-rotated worlds; non-trivial = the matrix contains requests by database-bound or revoked keys (always)",
+        true,
+        canonical(),
+        |c, ctx| run_case(t, c, ctx),
+    );
+    r.sub(
+        "generated_histories",
+        "1-13 generated admin actions (set_api_key supplied / generated / reusing a retired key, remove_api_key, close, open/connect, restart, database and collection read-only, document and extension writes, flush) on top of the fixture, then the COMPLETE request matrix in six name-rotated worlds; non-trivial = the matrix contains requests by database-bound or revoked keys (always: the fixture guarantees both)",
+        (16, 400),
+        case_strategy,
+        |c, ctx| run_case(t, c, ctx),
+    );
+    r.sub(
+        "generated_histories_sampled_bodies",
+        "breadth over histories: 1-23 generated admin actions, then the matrix with all principals x all targets x all encodings but only the reduced body set plus 6 picked bodies (method x parameter variant), same oracles, six name-rotated worlds; non-trivial = the matrix contains requests by database-bound or revoked keys (always)",
+        (88, 2000),
+        sampled_strategy,
+        |c, ctx| run_case(t, c, ctx),
+    );
+    let ff = check::FIXTURE_FAILURES.lock().unwrap().clone();
+    if !ff.is_empty() {
+        r.inconclusive(format!("{} case(s) could not build their fixture; first: {}", ff.len(), ff[0].chars().take(600).collect::<String>()));
+    }
+    let vac = check::VACUOUS.lock().unwrap().clone();
+    if !vac.is_empty() {
+        r.inconclusive(format!("{} case(s) were vacuous; first: {}", vac.len(), vac[0].chars().take(600).collect::<String>()));
+    }
+    r.finish();
 }
